@@ -63,6 +63,7 @@ type Stats struct {
 	WitnessReached bool           `json:"witness_reached"`
 	ConcTruncated  int            `json:"concretizations_truncated"`
 	LoopCuts       int            `json:"paths_cut_by_loop_cut"`
+	OpaqueCompares int            `json:"comparisons_with_opaque_text_left_open"`
 }
 
 type Explorer struct {
@@ -105,9 +106,12 @@ type Explorer struct {
 	shardDone      bool
 }
 
+var curEx *Explorer
+
 func newExplorer(i *interpreter, s *Solver) *Explorer {
 	ex := &Explorer{i: i, solver: s, siteSeen: map[string]bool{}, assertLbl: map[string]int{}, oblSites: map[string]int{}}
 	ex.stats.AbandonReasons = map[string]int{}
+	curEx = ex
 	return ex
 }
 
